@@ -9,28 +9,6 @@ using namespace iora::core;
 using ms = std::chrono::milliseconds;
 int main(int argc, char **argv) {
   auto in = replay_io::load(argv[1]);
-  if (in.count("STALL")) {
-    // scenario for Q3/Q5 (stale currentTick): a slow handler keeps the tick thread busy for STALL ms; a timer scheduled then
-    // is bucketed relative to a currentTick that is STALL ms old and is swept by the catch-up of the next advance()
-    long long STALL = replay_io::i64(in["STALL"]), DELAY = replay_io::i64(in["DELAY"]);
-    using clk = std::chrono::steady_clock;
-    static TimingWheel w(ms(10), 16, 2);
-    w.start();
-    static std::atomic<long long> startedAt{-1}, firedAt{-1};
-    auto t0 = clk::now();
-    auto since = [t0] { return (long long)std::chrono::duration_cast<ms>(clk::now() - t0).count(); };
-    w.schedule(ms(10), [&, STALL] { startedAt.store(since()); std::this_thread::sleep_for(ms(STALL + 15)); });
-    while (startedAt.load() < 0) std::this_thread::sleep_for(ms(1));
-    std::this_thread::sleep_for(ms(STALL));
-    long long schedAt = since();
-    w.schedule(ms(DELAY), [&] { firedAt.store(since()); });
-    for (int k = 0; k < (DELAY + 400) / 5 && firedAt.load() < 0; k++) std::this_thread::sleep_for(ms(5));
-    long long f = firedAt.load(), deadline = schedAt + DELAY;
-    printf("wheel(10 ms, 16, 2): tick thread busy since %lld ms; schedule(%lld ms) at %lld ms (deadline %lld ms); handler ran at %lld ms\n", startedAt.load(), DELAY, schedAt, deadline, f);
-    fflush(stdout);
-    if (f >= 0 && f + 10 + 2 < deadline) { printf("REPLAY-FAIL: Q3: handler ran %lld ms before its deadline (more than one 10 ms tick early)\n", deadline - f); fflush(stdout); _exit(1); }
-    printf("REPLAY-OK: not more than one tick early\n"); fflush(stdout); _exit(0);
-  }
   size_t N = replay_io::u64(in["N"]), CUR0 = replay_io::u64(in["CUR0"]), CUR1 = replay_io::u64(in["CUR1"]);
   long long D[3] = { replay_io::i64(in["D0"]), replay_io::i64(in["D1"]), replay_io::i64(in["D2"]) };
   if (N > 3) N = 3;
